@@ -141,6 +141,12 @@ var c14CDs = []c14Opt{
 	{"inline", []string{"inline"}, c14Yes},
 	{"attachment", []string{"attachment; filename=x"}, c14No},
 	{"attachment-bare", []string{"attachment"}, c14No},
+	// attachments whose parameters a strict media-type parser rejects (browsers still download them)
+	{"attachment-filename-with-space", []string{"attachment; filename=monthly report.html"}, c14No},
+	{"attachment-filename-with-parens", []string{"attachment; filename=report(final).html"}, c14No},
+	{"attachment-trailing-comma", []string{`attachment; filename="a.html"; size=12,`}, c14No},
+	{"attachment-no-space", []string{"attachment;filename=x.html"}, c14No},
+	{"attachment-ext-value", []string{"attachment; filename*=UTF-8''r%C3%A9sum%C3%A9.html"}, c14No},
 	{"upper", []string{"ATTACHMENT; filename=x"}, c14Open},
 	{"inline-named-attachment", []string{`inline; filename="attachment.html"`}, c14Open},
 }
